@@ -194,12 +194,7 @@ func runC17(p *load.Program, r *core.Report) {
 				sw = b.X
 			}
 		})
-		var reasonPar *ssa.Parameter
-		for _, pa := range term.Params {
-			if pa.Name() == "reason" {
-				reasonPar = pa
-			}
-		}
+		reasonPar := paramOfType(term, "error", 0)
 		if sw == nil {
 			r.Unk(rule2, "C17.A2|switch", fn, p.Pos(term.Pos()), "mode switch found", "no comparison of the mode with its constants")
 		} else {
@@ -316,16 +311,12 @@ func runC17(p *load.Program, r *core.Report) {
 			okEmpty := false
 			eachInstr(term, func(in ssa.Instruction) {
 				b, ok := in.(*ssa.BinOp)
-				if !ok || b.Op != token.GTR {
+				if !ok {
 					return
 				}
-				if c, ok := b.X.(*ssa.Call); ok && callsNamed(c, "Len") {
-					if z, okz := constInt(b.Y); okz && z == 0 {
-						_, fl, _ := boolEdges(b)
-						if edgesDominate(fl, cb) {
-							okEmpty = true
-						}
-					}
+				es := leqEdges(b, func(v ssa.Value) bool { c, ok := v.(*ssa.Call); return ok && callsNamed(c, "Len") }, 0)
+				if len(es) > 0 && edgesDominate(es, cb) {
+					okEmpty = true
 				}
 			})
 			if !okEmpty {
@@ -513,14 +504,12 @@ func c10Stop(p *load.Program, r *core.Report, rule string, stop, term *ssa.Funct
 	if cl != nil {
 		eachInstr(term, func(in ssa.Instruction) {
 			b, ok := in.(*ssa.BinOp)
-			if !ok || b.Op != token.GTR {
+			if !ok {
 				return
 			}
-			if c, ok := b.X.(*ssa.Call); ok && callsNamed(c, "Len") {
-				_, fl, _ := boolEdges(b)
-				if edgesDominate(fl, cl) {
-					okEmpty = true
-				}
+			es := leqEdges(b, func(v ssa.Value) bool { c, ok := v.(*ssa.Call); return ok && callsNamed(c, "Len") }, 0)
+			if len(es) > 0 && edgesDominate(es, cl) {
+				okEmpty = true
 			}
 		})
 	}
